@@ -282,6 +282,13 @@ def regression_items():
                 "pipelines": [pipe([{"id": "m1", "type": "field_name_mapping", "mapping": {"a": ["a1", "a2", "a3"], "b": ["b1", "b2"]}},
                                     {"id": "m2", "type": "field_name_suffix", "suffix": ".s"}, {"id": "m3", "type": "field_name_prefix", "prefix": "p."},
                                     {"id": "cv", "type": "convert_type", "target_type": "num"}])]})
+    # an exception the backend raises for an unsupported feature (not a Sigma error) after an added condition / a filter: its text is
+    # an error record like any other and must neither vary with the draw nor carry the internal names
+    hour = {"title": "h", "name": "h", "logsource": {"category": "c"}, "detection": {"sel": {"t|hour": 3, "a": 1}, "condition": "sel"}}
+    its.append({"kind": "convert", "regress": "unsupported-after-addcond", "docs": [hour], "collect": False,
+                "pipelines": [pipe([{"id": "ac", "type": "add_condition", "conditions": {"i": "j"}}])]})
+    its.append({"kind": "convert", "regress": "unsupported-after-filter", "pipelines": [], "collect": False,
+                "docs": [hour, {"title": "f", "logsource": {"category": "c"}, "filter": {"rules": ["h"], "flt": {"b": 2}, "condition": "not flt"}}]})
     # 1a4946c: a modifier applied to an incompatible regular expression value printed the flag set in hash order
     its.append({"kind": "load", "what": "rule", "regress": "1a4946c",
                 "doc": {"title": "n", "logsource": {"category": "c"}, "detection": {"sel": {"a|re|i|m|s|base64": "x.*"}, "condition": "sel"}}})
